@@ -278,8 +278,17 @@ cdef class LineProfiler:
                 warnings.warn("Could not extract a code object for the object %r" % (func,))
                 return
 
-        if code.co_code in self.dupes_map:
-            self.dupes_map[code.co_code] += [code]
+        # the same bytecode may also be traced already for another code
+        # object without `dupes_map` knowing it: a function which an earlier
+        # profiler had padded arrives with exactly the bytes this profiler
+        # gave to a duplicate of its own
+        clash = False
+        for c in self.code_hash_map:
+            if c is not code and c.co_code == code.co_code:
+                clash = True
+                break
+        if code.co_code in self.dupes_map or clash:
+            self.dupes_map.setdefault(code.co_code, []).append(code)
             # code hash already exists, so there must be a duplicate function. add no-op
             co_padding : bytes = NOP_BYTES * (len(self.dupes_map[code.co_code]) + 1)
             co_code = code.co_code + co_padding
